@@ -2,6 +2,7 @@
  '20 <int_result A> <int_result B> | trait A rows ; -1 ; trait B rows'  both traits (encoding of C01) are expanded by the real macros in one crate built with the
       layout_checks feature and the REAL compare_layouts (abi_stable's check_layout_compatibility) compares the layouts of their opaque boxed objects:
       output 0 Valid / 1 Invalid / 2 Unknown.  The Coq model predicts Valid iff the generated C-visible interfaces are identical.
+ '320 <int_result A> <int_result B> <expected> <role> | ..'  the same pair of traits as MEMBERS (role 0 mandatory / 1 optional) of a group; the groups' layouts are compared.
  '120 | nmand names.. ; -1 ; nmand names..'  the same for two group definitions over five fixed traits (expected verdict from the property statement).
 VerifyLayout::and / is_valid_* / compare_layouts' None handling are translated from the source into Coq on every run (gen/VerifyAnd_Src.v) and also executed."""
 import os
@@ -43,7 +44,7 @@ def run_impl(lines):
     return G.run_impl(lines)
 
 
-VERDICT_IDS = ("120 ", "220 ", "221 ", "222 ")
+VERDICT_IDS = ("120 ", "220 ", "221 ", "222 ", "320 ")
 
 
 def model_line(l):
